@@ -494,7 +494,7 @@ func (MonC15) State(x *Exec) *Violation {
 		}
 	}
 	for _, pr := range x.Ref.Sorted() {
-		const other = 7777
+		const other = 77 // representable in every value type of the universes (a byte suffices)
 		if p := safely(func() { d.Insert(pr.K, other) }); p != "" {
 			continue
 		}
